@@ -691,7 +691,11 @@ def call_native_method(it, recv, name, args, kwargs, pc):
             if isinstance(a, SymList):
                 real = to_real_seq(it, a)
                 if real is None:
-                    if all_present_under(it, a, pc) and not any(I.has_special(e) for _, e in a.elems):
+                    prod = 1
+                    for _, e in a.elems:
+                        if type(e) is U:
+                            prod *= len(e.alts)
+                    if (recv == "" or prod <= 64) and all_present_under(it, a, pc) and not any(I.has_special(e) for _, e in a.elems):
                         # every element is there: plain concatenation over the alternatives
                         items = [e for _, e in a.elems]
                         return vc.lift(lambda s, *xs: s.join(xs), [recv] + items, pc, it.sink)
